@@ -419,7 +419,8 @@ def setup():
     drivers = []
     for pid, prop in PROPS.items():
         for st in prop["stages"]:
-            for b in st.get("builds", [(st.get("driver"), st.get("variant", "asan"), st.get("src"), st.get("build_flags", ()), st.get("build_libs", ("-lrapidcheck",)))]):
+            default_variant = "fuzz" if st["kind"] == "fuzz" else st.get("variant", "asan")
+            for b in st.get("builds", [(st.get("driver"), default_variant, st.get("src"), st.get("build_flags", ()), st.get("build_libs", ("-lrapidcheck",)))]):
                 if b[0]:
                     variants.add(b[1])
                     drivers.append(b)
@@ -513,3 +514,104 @@ def write_manifest():
         json.dump(man, f, indent=1)
         f.write("\n")
     return 0
+
+
+# ---------------------------------------------------------------------------------------------------
+# libFuzzer stages
+# ---------------------------------------------------------------------------------------------------
+def _fuzz_binary(stage):
+    return vfbuild.build_driver(stage["driver"], "fuzz", stage["src"])
+
+
+def _run_artifact(binary, path, timeout=120):
+    env = env_for({"ASAN_OPTIONS": ASAN_ENV["ASAN_OPTIONS"].replace("detect_leaks=1", "detect_leaks=0")})
+    try:
+        r = subprocess.run([binary, "-detect_leaks=0", "-timeout=20", path], stdout=subprocess.PIPE, stderr=subprocess.STDOUT, env=env,
+                           timeout=timeout, text=True, errors="replace")
+        return r.returncode, r.stdout
+    except subprocess.TimeoutExpired:
+        return "timeout", ""
+
+
+def stage_fuzz(pid, stage, tier, replay_path=None):
+    binary = _fuzz_binary(stage)
+    if tier == "replay":
+        rc, out = _run_artifact(binary, replay_path)
+        sys.stdout.write(out[-3000:])
+        return rc != 0
+    out = StageOutcome(stage["name"])
+    cfg = stage[tier]
+    wd = workdir(pid, stage["name"])
+    corpus_src = os.path.join(VERIF, "corpus", stage["driver"])
+    workers = cfg.get("workers", 4)
+    base = seed_base()
+    jobs = []
+    for k in range(workers):
+        cdir = os.path.join(wd, "corpus-%d" % k)
+        os.makedirs(cdir)
+        seeded = (k % 2 == 0)  # half of the workers start from the committed seed corpus, half from an empty one
+        if seeded and os.path.isdir(corpus_src):
+            for f in os.listdir(corpus_src):
+                shutil.copyfile(os.path.join(corpus_src, f), os.path.join(cdir, f))
+        adir = os.path.join(wd, "art-%d" % k) + "/"
+        os.makedirs(adir)
+        max_len = cfg.get("max_len_big", cfg.get("max_len", 1024)) if (k % 4 == 3) else cfg.get("max_len", 1024)
+        env = env_for({"VF_STATS": os.path.join(wd, "stats-%d.json" % k),
+                       "ASAN_OPTIONS": ASAN_ENV["ASAN_OPTIONS"].replace("detect_leaks=1", "detect_leaks=0")})
+        cmd = [binary, cdir, "-runs=%d" % cfg.get("runs", 100000), "-seed=%d" % (base * 1000 + k + 1), "-max_len=%d" % max_len,
+               "-artifact_prefix=" + adir, "-print_final_stats=1", "-timeout=25", "-rss_limit_mb=4096", "-detect_leaks=0",
+               "-len_control=0" if k % 2 else "-len_control=100", "-use_value_profile=%d" % (1 if k % 4 == 1 else 0)]
+        jobs.append((cmd, env, cfg.get("timeout", 7200), os.path.join(wd, "log-%d.txt" % k)))
+    t0 = time.time()
+    results = run_parallel(jobs)
+    out.wall = time.time() - t0
+    cov = []
+    for k, (rc, _) in enumerate(results):
+        st = load_stats(os.path.join(wd, "stats-%d.json" % k))
+        if st:
+            out.stats.append(st)
+        log = jobs[k][3]
+        m = re.search(r"cov: (\d+) ft: (\d+) corp: (\d+)", "".join(reversed(read_tail(log, 20000).splitlines(True)[-40:])))
+        txt = read_tail(log, 20000)
+        mm = re.findall(r"cov: (\d+) ft: (\d+) corp: (\d+)", txt)
+        if mm:
+            cov.append("w%d cov=%s ft=%s corp=%s" % (k, mm[-1][0], mm[-1][1], mm[-1][2]))
+        adir = os.path.join(wd, "art-%d" % k)
+        arts = sorted(os.listdir(adir))
+        crashes = [a for a in arts if a.startswith("crash-")]
+        slow = [a for a in arts if a.startswith(("timeout-", "oom-", "slow-unit-"))]
+        if rc == "timeout":
+            out.notes.append("worker %d hit the watchdog: inconclusive" % k)
+        if crashes and not out.failure:
+            art = os.path.join(adir, crashes[0])
+            # minimise (bounded); fall back to the original artifact
+            mini = os.path.join(wd, "min-%d" % k)
+            try:
+                subprocess.run([binary, "-minimize_crash=1", "-exact_artifact_path=" + mini, "-max_total_time=60", "-detect_leaks=0", art],
+                               stdout=subprocess.PIPE, stderr=subprocess.STDOUT, env=jobs[k][1], timeout=180)
+            except subprocess.TimeoutExpired:
+                pass
+            if os.path.exists(mini) and _run_artifact(binary, mini)[0] != 0:
+                named = os.path.join(wd, "%s-min-%s" % (pid, crashes[0]))
+                shutil.copyfile(mini, named)
+                art = named
+            why = sanitizer_summary(log)
+            mo = re.search(r"ORACLE-FAILURE: ([^\n]*)", read_tail(log, 200000))
+            if mo:
+                why = mo.group(1)[:1500]
+            out.failure = (art, why, stage, log)
+        for a in slow:
+            # load noise unless it reproduces three times in isolation
+            art = os.path.join(adir, a)
+            hangs = sum(1 for _ in range(3) if _run_artifact(binary, art, timeout=60)[0] in ("timeout", 70))
+            if hangs == 3 and a.startswith("timeout-") and not out.failure:
+                out.failure = (art, "decode did not return within 20 s (reproduced 3 times)", stage, log)
+            else:
+                out.notes.append("%s not reproduced (%d/3): load noise" % (a, hangs))
+        if rc not in (0, "timeout") and not crashes and not slow:
+            out.notes.append("worker %d exited with status %s without an artifact (see %s)" % (k, rc, log))
+    out.notes.append("; ".join(cov))
+    return out
+
+
+register_stage("fuzz", stage_fuzz)
